@@ -135,7 +135,9 @@ pub fn run(tier: Tier) -> Report {
                     if out.len() < 3 {
                         out.push(Failure {
                             key: format!("parse:{}", kind),
-                            case: json!({"text": r.text, "family": it.family, "layout": format!("{:?}", v.layout), "comment_gaps": v.gaps, "tree": format!("{:?}", it.program)}),
+                            case: json!({"text": r.text, "family": it.family, "layout": format!("{:?}", v.layout), "comment_gaps": v.gaps,
+                                "expected_tree": format!("{:?}", project::normalize(&it.program)),
+                                "expected_spans": expected_spans(&pr, &r).iter().map(|s| format!("{:?}:{}..{}", s.kind, s.first, s.end)).collect::<Vec<_>>()}),
                             detail,
                         });
                     }
@@ -191,10 +193,16 @@ pub fn replay(case: &Value) -> Vec<Failure> {
             match project::project(&prog) {
                 Err(e) => out.push(Failure { key: "parse:error-node-in-tree".into(), case: case.clone(), detail: e }),
                 Ok(pj) => {
-                    let tree = format!("{:?}", pj.program);
-                    // compare with the stored generator tree modulo literal spelling
-                    if let Some(want) = case["tree"].as_str() {
-                        let _ = (want, tree);
+                    if let Some(want) = case["expected_tree"].as_str() {
+                        if format!("{:?}", pj.program) != want {
+                            out.push(Failure { key: "parse:structure".into(), case: case.clone(), detail: format!("parsed {:?}\nexpected {}", pj.program, want) });
+                        }
+                    }
+                    if let Some(want) = case["expected_spans"].as_array() {
+                        let got: Vec<Value> = pj.spans.iter().map(|s| json!(format!("{:?}:{}..{}", s.kind, s.first, s.end))).collect();
+                        if &got != want {
+                            out.push(Failure { key: "parse:range".into(), case: case.clone(), detail: format!("node ranges {:?}\nexpected {:?}", got, want) });
+                        }
                     }
                 }
             }
